@@ -49,6 +49,10 @@ CHECKS = {
          "Generated-input search; the chosen sample is checked against a brute-force scan of the feasibility/objective table for both feasibility notions and both senses, failure iff no sample is feasible.",
          "Pre-1.6 messages with only `feasible` are not generated (no documented reading).",
          "DESIGN.md §5 C15"),
+ "C16": ("exhaustive sweep over all ordered pairs of endpoint-class intervals x {+,*,^0..8,scale,shift} with placed points, plus proptest-driven random intervals, evaluate_bound over boxes, as_integer_bound and content_factor; oracle = exact rational pointwise values",
+         "Exploration with an exhaustively enumerated corner-class sub-space (every combination of {-inf, negative, -0, 0, positive, +inf} endpoint classes); containment exact for dyadic data, relative 1e-9 otherwise; invalid intervals and panics are failures.",
+         "Scaling by 0 excluded by the statement; as_integer_bound only on intervals containing an integer; magnitudes <= 1e6.",
+         "DESIGN.md §5 C16"),
  "C14": ("model-based stateful testing: generated relax/restore/evaluate histories interpreted against a two-map model with invariants checked after every step",
          "Generated operation sequences (<=8 quick, <=20 thorough) with ids from active/removed/unknown; Ok/Err, unchanged-on-error, constraint collection, list membership, reasons, per-state values and feasibility invariance checked after every step.",
          "Trusts the model in props/c14.rs and the reference evaluator.",
